@@ -118,14 +118,19 @@ def _snapshot(an, body, inst):
             if r["kind"] == "struct":
                 out.append((n, tuple((id(e), tuple(_snapshot(an, r["decl"]["body"], e))) for e in v)))
             else:
-                out.append((n, tuple(v)))
+                out.append((n, tuple(_frozen(e) for e in v)))
         else:
             r = an.resolve(ins["type"])
             if r["kind"] == "struct":
                 out.append((n, id(v), _snapshot(an, r["decl"]["body"], v)))
             else:
-                out.append((n, v))
+                out.append((n, _frozen(v)))
     return out
+
+
+def _frozen(v):
+    """Leaves by value: a byte buffer (blob) is recorded as the bytes it holds at this moment."""
+    return bytes(v) if isinstance(v, (bytearray, memoryview)) else v
 
 
 def _arrays(body, inst, out, path=""):
@@ -254,7 +259,9 @@ def check_case(case, res=None):
                     raise Violation("repeat_serialize_identical", cj, b0, b1, "constructed instance")
                 # ---- deserialised instance
                 if not b0.startswith("raised") and not (c["lex"] and not it["mode"]):
-                    r = s.reader(bytes.fromhex(b0), chunked=it["mode"])
+                    # the bytes arrive in a receive buffer that the connection reuses for the next packet
+                    recv = bytearray.fromhex(b0)
+                    r = s.reader(recv, chunked=it["mode"])
                     try:
                         # hostile-looking counts would make deserialize loop for hours: ask the reference first
                         ok = Interp(an).deserialize(c["body"], bytes.fromhex(b0), c["lex"], it["mode"])[0] == "ok"
@@ -268,6 +275,12 @@ def check_case(case, res=None):
                         # a snapshot stays a snapshot: later (de)serialisations of OTHER data through the
                         # same class must not change anything reachable from an instance handed out earlier
                         snap = _snapshot(an, c["body"], inst2)
+                        for i_ in range(len(recv)):
+                            recv[i_] = 0x2A + (i_ % 7)
+                        if _snapshot(an, c["body"], inst2) != snap:
+                            raise Violation("instance_unchanged_by_later_calls", cj, repr(snap)[:200],
+                                            repr(_snapshot(an, c["body"], inst2))[:200],
+                                            "a deserialised instance changed when the receive buffer it was read from was reused")
                         raw = bytes.fromhex(b0)
                         for other in (raw, raw + b"\x05\x06\x07", raw[: max(0, len(raw) - 1)], b""):
                             try:
